@@ -94,6 +94,23 @@ theorem ratioDistribute_pos (total : Int) (ratios : List Int) (hne : ratios ≠ 
     · rw [rdLoop_length]; simp
     · intro d hd; have := hz d hd; omega
 
+/-- With at least one column `_calculate_column_widths` is the three phases, whatever the no-columns flag says. -/
+theorem calcWidths_ne (fl : Flags) (t : Table) (maxWidth : Int) (h : t.columns ≠ []) :
+    t.calcWidths fl maxWidth =
+      match t.firstWidths fl maxWidth with
+      | none => none
+      | some widths =>
+        if widths.sum > maxWidth then
+          t.padWidths fl (t.shrinkWidths widths maxWidth).1 (t.shrinkWidths widths maxWidth).2 maxWidth
+        else t.padWidths fl widths widths.sum maxWidth := by
+  unfold Table.calcWidths
+  have : t.columns.isEmpty = false := by
+    cases hc : t.columns with
+    | nil => exact absurd hc h
+    | cons _ _ => rfl
+  simp only [this, Bool.and_false, Bool.false_eq_true, if_false]
+  rfl
+
 /-! ### the final padding block -/
 
 theorem padTarget_le (fl : Flags) (t : Table) (maxWidth : Int) : t.padTarget fl maxWidth ≤ maxWidth := by
